@@ -4,7 +4,7 @@ from ..rules import codec, status, geometry
 
 def run(ck):
     P = facts.load()
-    ck.not_decided = ('not decided: that the 8/16/32-bpp and SIMD fill/blt loops write exactly the rectangle (head/body/tail), pixman_blt overlap behaviour.')
+    ck.not_decided = ('not decided: alignment arithmetic of the head steps, the inline-assembly 64-byte block of mmx_fill (its guard and budget are checked, its stores are not visible), the portable pixel-indexed fills beyond C03-R2, pixman_blt overlap behaviour.')
     status.r5_blt_fill(ck, P)
     accepted = codec.r9_color_to_pixel(ck, P)
     status.r19_4_depths(ck, P, accepted)
